@@ -104,11 +104,15 @@ M['c15_n9_no_followlinks_realpath_dedupe'] = ('C15', 'quiet', 'benign: path argu
 ])
 M['c15_b2_atomic_replace'] = ('C15', 'quiet', 'benign (and the repair of finding F2): in-place write via temporary file + os.replace', [
     (MAIN, "            if args.in_place:\n                with open(path, 'wb') as f:\n                    f.write(minified)\n",
-           "            if args.in_place:\n                tmp_path = os.path.join(os.path.dirname(os.path.realpath(path)), '.pyminify-tmp-' + os.path.basename(path))\n                with open(tmp_path, 'wb') as f:\n                    f.write(minified)\n                    f.flush()\n                os.replace(tmp_path, os.path.realpath(path))\n"),
+           "            if args.in_place:\n                tmp_path = os.path.realpath(path) + '.pyminify-tmp'\n                with open(tmp_path, 'wb') as f:\n                    f.write(minified)\n                    f.flush()\n                os.replace(tmp_path, os.path.realpath(path))\n"),
 ])
 M['c15_b2b_atomic_replace_tmp_suffix'] = ('C15', 'quiet', 'benign: in-place write via unique temporary file (tempfile.mkstemp in the same directory) + os.replace', [
     (MAIN, "            if args.in_place:\n                with open(path, 'wb') as f:\n                    f.write(minified)\n",
            "            if args.in_place:\n                import tempfile\n                real = os.path.realpath(path)\n                fd, tmp_path = tempfile.mkstemp(prefix='.pyminify-', suffix='.tmp', dir=os.path.dirname(real))\n                os.close(fd)\n                try:\n                    with open(tmp_path, 'wb') as f:\n                        f.write(minified)\n                    os.replace(tmp_path, real)\n                except BaseException:\n                    try:\n                        os.unlink(tmp_path)\n                    except OSError:\n                        pass\n                    raise\n"),
+])
+M['c15_b4_module_level_seen'] = ('C15', 'quiet', 'benign in a one-shot process: a module-level list in __main__ remembers the real paths already minified and skips repeats', [
+    (MAIN, "def source_modules(args):\n", "_SEEN = []\n\n\ndef source_modules(args):\n"),
+    (MAIN, "        for path in source_modules(args):\n", "        for path in source_modules(args):\n            if (args.in_place and os.path.realpath(path) in _SEEN):\n                continue\n            _SEEN.append(os.path.realpath(path))\n"),
 ])
 M['c15_b3_pathlib_io'] = ('C15', 'quiet', 'benign: reads through pathlib', [
     (MAIN, "            with open(path, 'rb') as f:\n                source = f.read()\n", "            import pathlib\n            source = pathlib.Path(path).read_bytes()\n"),
